@@ -75,7 +75,7 @@ def case(shape, kind, how, start, name, exp, got):
 def job(shapes):
     t = core.Tally()
     for s in shapes:
-        check_shape(t, s)
+        core.guard(t, "C05", {"engine": "E2", "module": MOD, "shape": s, "kind": KINDS[0], "how": "topdown"}, check_shape, t, s)
     return t
 
 
